@@ -1,3 +1,4 @@
+import ast
 from collections.abc import Iterable
 
 from formulaic.utils.code import format_expr, sanitize_variable_names
@@ -28,10 +29,13 @@ def sanitize_python_code(expr: str) -> str:
     (by backticks) are properly handled.
     """
     aliases: dict[str, str] = {}
-    expr = format_expr(
-        sanitize_variable_names(expr, {}, aliases, template="_formulaic_{}")
+    code = ast.parse(
+        sanitize_variable_names(expr, {}, aliases, template="_formulaic_{}"),
+        mode="eval",
     )
-    while aliases:
-        alias, orig = aliases.popitem()
-        expr = expr.replace(alias, f"`{orig}`")
-    return expr
+    # Restore the quoted names on the syntax tree (rather than by replacing
+    # text, which would also hit identifiers that merely contain an alias).
+    for node in ast.walk(code):
+        if isinstance(node, ast.Name) and node.id in aliases:
+            node.id = f"`{aliases[node.id]}`"
+    return format_expr(code)
